@@ -200,6 +200,8 @@ struct Shared<'w> {
     stop: AtomicBool,
     violation: Mutex<Option<ViolationInfo>>,
     events: Mutex<Vec<String>>,
+    /// results the main thread obtained in the prologue; threads bind clones of them in their scopes
+    handoff: Vec<Value>,
     /// off in free-running mode (engine M): a mutex taken by every thread after every operation
     /// would order their memory accesses and hide data races from Miri's detector
     log_events: bool,
@@ -379,6 +381,14 @@ impl<'a, 'w> Runner<'a, 'w> {
                     ts.retained[*i % n].clone()
                 }
             }),
+            ValSrc::Handoff(i) => {
+                let h = &self.sh.handoff;
+                if h.is_empty() {
+                    Value::Null
+                } else {
+                    h[*i % h.len()].clone()
+                }
+            }
         }
     }
 
@@ -521,7 +531,7 @@ impl<'a, 'w> Runner<'a, 'w> {
                 match &b.src {
                     ValSrc::Fresh(spec) => build_value(spec, &[]),
                     ValSrc::RootVar(n) => tr.ctx.get_variable(n.as_str()).unwrap_or(Value::Null),
-                    ValSrc::Retained(_) => match &b.alias {
+                    ValSrc::Retained(_) | ValSrc::Handoff(_) => match &b.alias {
                         Some(v) => v.clone(),
                         None => rebuild_from_snap(&b.snap),
                     },
@@ -573,7 +583,7 @@ impl<'a, 'w> Runner<'a, 'w> {
                         self.stats.retained_alias_defines += 1;
                     }
                     let s = snap(&v);
-                    let keep_alias = (matches!(src, ValSrc::Retained(_)) && s.has_multi_key_map())
+                    let keep_alias = (matches!(src, ValSrc::Retained(_) | ValSrc::Handoff(_)) && s.has_multi_key_map())
                         || mix(&[sh.w.run_seed, self.tid as u64, idx as u64, 0xa11a5]) % 4 == 0;
                     let alias = if keep_alias { Some(v.clone()) } else { None };
                     cur.add_variable_from_value(name.clone(), v);
@@ -942,20 +952,14 @@ fn run_workload_inner(w: &Workload, opts: &RunOptions) -> RunResult {
             }
         }
     };
-    let sh = Shared {
-        w,
-        compiled: &compiled,
-        stop: AtomicBool::new(false),
-        violation: Mutex::new(None),
-        events: Mutex::new(Vec::new()),
-        log_events: !opts.free_run,
-    };
     let mut stats = RunStats::default();
     let mut trace: Vec<u8> = vec![];
     let n = w.threads.len();
 
-    // Prologue: what does each program yield on a pristine root, before any history exists?
+    // Prologue: what does each program yield on a pristine root, before any history exists? The Ok
+    // results stay alive on the main thread for the whole run ("handoff" values).
     tls::activate(usize::MAX >> 1, None, 0, 0);
+    let mut handoff: Vec<Value> = Vec::new();
     let prologue: Vec<Outcome> = {
         let tr = build_root(&w.recipe);
         compiled
@@ -964,11 +968,27 @@ fn run_workload_inner(w: &Workload, opts: &RunOptions) -> RunResult {
             .enumerate()
             .map(|(i, p)| {
                 tls::begin_exec(mix(&[w.run_seed, 0xface, i as u64]), 0);
-                execute(p, &tr.ctx)
+                let (o, v) = execute_keep(p, &tr.ctx);
+                if let (Outcome::Ok(s), Some(v)) = (&o, v) {
+                    if s.weight() <= MAX_RETAINED_WEIGHT && handoff.len() < MAX_RETAINED {
+                        handoff.push(v);
+                    }
+                }
+                o
             })
             .collect()
     };
+    let handoff_snaps: Vec<Snap> = handoff.iter().map(snap).collect();
     let _ = tls::deactivate();
+    let sh = Shared {
+        w,
+        compiled: &compiled,
+        stop: AtomicBool::new(false),
+        violation: Mutex::new(None),
+        events: Mutex::new(Vec::new()),
+        handoff,
+        log_events: !opts.free_run,
+    };
 
     if w.engine == Engine::S {
         // one long-lived context, one thread, twins per execution
@@ -1090,6 +1110,24 @@ fn run_workload_inner(w: &Workload, opts: &RunOptions) -> RunResult {
         }
     }
 
+    // I4 for the values the main thread held throughout
+    if !sh.stopped() {
+        for (i, (v, then)) in sh.handoff.iter().zip(handoff_snaps.iter()).enumerate() {
+            let now = snap(v);
+            if &now != then {
+                sh.report(ViolationInfo {
+                    invariant: "I4".into(),
+                    phase: "epilogue".into(),
+                    thread: 0,
+                    op_index: 0,
+                    expected: then.show(),
+                    got: now.show(),
+                    detail: format!("value #{} that the main thread obtained before the run (and other threads bound clones of) changed", i),
+                });
+                break;
+            }
+        }
+    }
     // Epilogue: I3 — programs unchanged by the whole history
     if !sh.stopped() {
         tls::activate(usize::MAX >> 1, None, 0, 0);
